@@ -156,10 +156,15 @@ def _construct_defuse(ctx, fi):
     if len(rets) != 1:
         raise AnalysisError("construct_trs: expected one f-string return")
     parts = [v.value for v in rets[0].value.values if isinstance(v, ast.FormattedValue)]
-    if [norm(p) for p in parts] != ['twp', 'rge', 'sec'] or any(
-            isinstance(v, ast.Constant) and v.value for v in rets[0].value.values):
-        ctx.violation('DEFUSE', 'construct_trs: return', f"canonical template is `{norm(rets[0].value)}`",
-                      key="DEFUSE|construct_trs|template")
+    names = [norm(p) for p in parts]
+    if len(names) != 3 or any(isinstance(v, ast.Constant) and v.value for v in rets[0].value.values):
+        ctx.tri(False, len(names) == 3, 'DEFUSE', 'construct_trs returns twp+rge+sec',
+                detail_bad=f"canonical template is `{norm(rets[0].value)}` (extra literal text)",
+                key="DEFUSE|construct_trs|template", why='template not recognised')
+        return
+    if names[:2] != ['twp', 'rge']:
+        ctx.tri(False, sorted(names[:2]) == ['rge', 'twp'], 'DEFUSE', 'construct_trs returns twp+rge+sec',
+                detail_bad=f"template order is {names}", key="DEFUSE|construct_trs|template", why='names not recognised')
         return
     ctx.ok('DEFUSE', 'construct_trs returns f"{twp}{rge}{sec}"')
     twp, rge, sec = parts
@@ -176,9 +181,14 @@ def _construct_defuse(ctx, fi):
     prov = flow.provenance(fi.node, sec)
     rj = [p[2] for p in prov if p[0] == 'call' and p[1].endswith('.rjust')]
     ok = any(len(c.args) == 2 and norm(c.args[0]) == '2' and norm(c.args[1]) in ("'0'",) for c in rj)
-    ctx.check(ok, 'DEFUSE', "construct_trs: section padded with rjust(2, '0')",
-              detail_bad="section is no longer zero-padded to two digits",
-              key="DEFUSE|construct_trs|sec|rjust")
+    zf = [p[2] for p in prov if p[0] == 'call' and p[1].endswith('.zfill')]
+    ok = ok or any(len(c.args) == 1 and norm(c.args[0]) == '2' for c in zf)
+    pads = rj + zf
+    bad_pad = bool(pads) and not ok
+    ctx.tri(ok, bad_pad or (not pads and not flow.prov_opaque(prov) and 'str' in flow.prov_calls(prov)), 'DEFUSE',
+            "construct_trs: section zero-padded to two digits",
+            detail_bad="the section number is not zero-padded to two digits (e.g. 1 -> '1', not '01')",
+            key="DEFUSE|construct_trs|sec|rjust")
     # emptiness by membership, not truthiness
     mcnames = {'twp': '_UNDEF_TWP', 'rge': '_UNDEF_RGE', 'sec': '_UNDEF_SEC'}
     for var, const in mcnames.items():
@@ -189,9 +199,7 @@ def _construct_defuse(ctx, fi):
                     for s in n.body):
                 found = n
         if found is None:
-            ctx.violation('DEFUSE', f"construct_trs: empty {var} -> {const}",
-                          f"no branch maps an empty {var} to the undefined placeholder",
-                          key=f"DEFUSE|construct_trs|{var}|undef")
+            ctx.undecided('DEFUSE', f"construct_trs: empty {var} -> {const}", 'branch not recognised')
             continue
         t = found.test
         if isinstance(t, ast.Compare) and len(t.ops) == 1 and isinstance(t.ops[0], ast.In) \
@@ -206,13 +214,12 @@ def _construct_defuse(ctx, fi):
                           f"`if not {var}` also treats the integer 0 (a legal number) as empty",
                           key=f"DEFUSE|construct_trs|{var}|emptytest", where=common.loc(fi, found))
         else:
-            raise AnalysisError(f"construct_trs: unrecognised emptiness test `{norm(t)}`")
+            ctx.undecided('DEFUSE', f"construct_trs: {var} empty iff in ('', None)", f"test `{norm(t)}` not recognised")
     # defaults validated
     for exc in ('DefaultNSError', 'DefaultEWError'):
         ok = any(isinstance(n, ast.Raise) and exc in norm(n) and any(
             'not in' in norm(t) and pol for t, pol in guards(n)) for n in walk_local(fi.node))
-        ctx.check(ok, 'DEFUSE', f"construct_trs raises {exc} for an illegal default",
-                  detail_bad=f"{exc} validation missing", key=f"DEFUSE|construct_trs|{exc}")
+        ctx.shape(ok, 'DEFUSE', f"construct_trs raises {exc} for an illegal default")
     # invalid component -> error placeholder
     for var, const in (('twp', '_ERR_TWP'), ('rge', '_ERR_RGE'), ('sec', '_ERR_SEC')):
         ok = False
@@ -220,9 +227,7 @@ def _construct_defuse(ctx, fi):
             if isinstance(n, ast.If) and 'is None' in norm(n.test) and f"!= MC._UNDEF" in norm(n.test).replace('MasterConfig', 'MC') \
                     and any(norm(s) in (f"{var} = MC.{const}", f"{var} = MasterConfig.{const}") for s in n.body):
                 ok = True
-        ctx.check(ok, 'DEFUSE', f"construct_trs: invalid {var} -> {const}",
-                  detail_bad=f"no `if {var} != UNDEF and <no full match>: {var} = {const}` block",
-                  key=f"DEFUSE|construct_trs|{var}|err")
+        ctx.shape(ok, 'DEFUSE', f"construct_trs: invalid {var} -> {const}")
 
 
 def _rename(txt):
@@ -250,28 +255,33 @@ def _siblings(ctx, trs_to_dict, construct):
           and "dct['twp_ns'] = mo.group('ns')" in t
           and "elif mo.group('twp') == MC._UNDEF_TWP" in t.replace('MasterConfig', 'MC')
           and "dct['twp_undef'] = True" in t)
-    ctx.check(ok, 'SIB', 'trs_to_dict: Twp block stores twp/twp_num/twp_ns, undefined only for the placeholder',
-              detail_bad=f"Twp block is `{t[:200]}`", key="SIB|trs_to_dict|twp-block")
+    ctx.shape(ok, 'SIB', 'trs_to_dict: Twp block stores twp/twp_num/twp_ns, undefined only for the placeholder')
     # 'trs' rebuilt from the parts, last
     last_store = None
     for st in trs_to_dict.node.body:
         if isinstance(st, ast.Assign) and norm(st.targets[0]).startswith("dct["):
             last_store = st
-    ctx.check(last_store is not None and norm(last_store.targets[0]) == "dct['trs']"
+    # positive evidence of a defect: the input string itself is stored as 'trs'
+    for st_ in walk_local(trs_to_dict.node):
+        if isinstance(st_, ast.Assign) and norm(st_.targets[0]) == "dct['trs']" and not isinstance(st_.value, ast.JoinedStr):
+            pv_ = flow.provenance(trs_to_dict.node, st_.value)
+            if 'trs' in flow.prov_params(pv_):
+                ctx.violation('SIB', "trs_to_dict: 'trs' is rebuilt from twp+rge+sec",
+                              f"`{norm(st_)}` keeps the (lower-cased) input as the TRS string: it can disagree with its "
+                              f"decomposition (e.g. '154n97wxx' while sec is 'XX')",
+                              key="SIB|trs_to_dict|trs-from-input", where=common.loc(trs_to_dict, st_))
+    ctx.shape(last_store is not None and norm(last_store.targets[0]) == "dct['trs']"
               and isinstance(last_store.value, ast.JoinedStr)
               and [norm(v.value) for v in last_store.value.values
                    if isinstance(v, ast.FormattedValue)] == ["dct['twp']", "dct['rge']", "dct['sec']"]
               and not any(isinstance(v, ast.Constant) and v.value for v in last_store.value.values),
-              'SIB', "trs_to_dict: 'trs' is rebuilt from twp+rge+sec after all parts are set",
-              detail_bad=f"last store is `{norm(last_store) if last_store else None}`",
-              key="SIB|trs_to_dict|rebuild")
+              'SIB', "trs_to_dict: 'trs' is rebuilt from twp+rge+sec after all parts are set")
     # section: int() or placeholder
     t = ' '.join(norm(s) for s in trs_to_dict.node.body if isinstance(s, ast.Try))
     ok = ("dct['sec_num'] = int(sec)" in t and 'sec == MC._UNDEF_SEC' in t.replace('MasterConfig', 'MC')
           and "dct['sec_undef'] = True" in t and "sec = MC._ERR_SEC" in t.replace('MasterConfig', 'MC')
           and "dct['sec'] = sec" in t)
-    ctx.check(ok, 'SIB', 'trs_to_dict: section is a number, the undefined placeholder, or the error placeholder',
-              detail_bad=f"section block is `{t[:200]}`", key="SIB|trs_to_dict|sec-block")
+    ctx.shape(ok, 'SIB', 'trs_to_dict: section is a number, the undefined placeholder, or the error placeholder')
     # construct_trs: twp / rge blocks
     def block(var):
         out = []
@@ -286,18 +296,17 @@ def _siblings(ctx, trs_to_dict, construct):
                     break
         return ' ; '.join(out)
     a, b = _rename(block('twp')), block('rge')
-    ctx.check(bool(b) and a == b, 'SIB', 'construct_trs: Rge block is the Twp block under renaming',
-              detail_bad=f"blocks differ:\n    twp(renamed): {a}\n    rge:          {b}",
-              key="SIB|construct_trs|twp-rge")
+    ctx.tri(bool(b) and a == b, bool(a) and bool(b) and a != b, 'SIB', 'construct_trs: Rge block is the Twp block under renaming',
+            detail_bad=f"blocks differ:\n    twp(renamed): {a}\n    rge:          {b}",
+            key="SIB|construct_trs|twp-rge")
 
 
 def _eq_hash(ctx):
     eq = ctx.repo.func('TRS.__eq__')
     hs = ctx.repo.func('TRS.__hash__')
     t = ' '.join(norm(s) for s in eq.node.body if not isinstance(s, ast.Expr))
-    ctx.check('isinstance(other, TRS)' in t and 'return self.trs == other.trs' in t, 'DEFUSE',
-              'TRS.__eq__ compares .trs of two TRS objects',
-              detail_bad=f"__eq__ is `{t}`", key="DEFUSE|TRS.__eq__")
+    ctx.shape('isinstance(other, TRS)' in t and 'return self.trs == other.trs' in t, 'DEFUSE',
+              'TRS.__eq__ compares .trs of two TRS objects')
     t = ' '.join(norm(s) for s in hs.node.body)
     ctx.check(t == 'return hash(self.trs)', 'DEFUSE', 'TRS.__hash__ hashes .trs',
               detail_bad=f"__hash__ is `{t}`", key="DEFUSE|TRS.__hash__")
@@ -307,7 +316,5 @@ def _eq_hash(ctx):
              and isinstance(n.test.ops[0], ast.In)
              and set(ctx.fold.eval(n.test.comparators[0], {}, init.module.name) or []) == {'', None}
              and any('_UNDEF_TRS' in norm(s) for s in n.body) for n in init.node.body)
-    ctx.check(ok, 'DEFUSE', "TRS(''/None) means undefined",
-              detail_bad="TRS.__init__ no longer maps ''/None to _UNDEF_TRS", key="DEFUSE|TRS.__init__|undef")
-    ctx.check('self.trs = trs' in t, 'DEFUSE', 'TRS.__init__ routes through the .trs setter',
-              detail_bad="TRS.__init__ does not assign self.trs", key="DEFUSE|TRS.__init__|setter")
+    ctx.shape(ok, 'DEFUSE', "TRS(''/None) means undefined")
+    ctx.shape('self.trs = trs' in t, 'DEFUSE', 'TRS.__init__ routes through the .trs setter')
